@@ -182,6 +182,10 @@ def typeclass(x):
         return 'none'
     if isinstance(x, (bool, np.bool_)):
         return 'bool'
+    if isinstance(x, np.timedelta64):  # NB: a subclass of np.signedinteger
+        return 'timedelta'
+    if isinstance(x, np.datetime64):
+        return 'datetime'
     if isinstance(x, (int, np.integer)):
         return 'integer'
     if isinstance(x, (float, np.floating, complex, np.complexfloating)):
